@@ -34,6 +34,10 @@ func init() {
 }
 
 func runC04(c *an.Ctx) {
+	dnssvcWiring(c, "C04-R11", func(dst, src string) bool {
+		n := normName(dst) + " " + normName(src)
+		return strings.Contains(n, "count") || strings.Contains(n, "ttl")
+	}, 4)
 	// ---- R11: the TTL-override switch and the cache sizes of the configuration reach the caches
 	c.Floor("C04-R11", 3)
 	c.Borrow("C04-R11", runC20, func(o an.Obligation) bool { return o.Rule == "C20-R5" && strings.Contains(o.Key, "cacheConfig") })
